@@ -13,6 +13,6 @@ CONSTANTS
   MaxOps = 3
   Deterministic = FALSE
 VIEW View
-INVARIANTS TypeOK HistoryIsRetainedSuffix
-PROPERTIES OffsetsDense EpochStable EpochFresh ClearKeepsPosition SuppressedChangesNothing StoredIsHanded VersionExact UnversionedKeepsVersion IdemReturnsOriginal
+INVARIANTS TypeOK
+PROPERTIES HistoryIsRetainedSuffix OffsetsDense EpochStable EpochFresh ClearKeepsPosition SuppressedChangesNothing StoredIsHanded VersionExact UnversionedKeepsVersion IdemReturnsOriginal
 CHECK_DEADLOCK FALSE
